@@ -173,12 +173,21 @@ type signWorld struct {
 	yamlSafe bool
 	// allowOddKeys lets "<<" and "" through as mapping keys (C09 meets D6 on purpose).
 	allowOddKeys bool
+	// oddSources adds legal-but-unusual plugin source strings (redundant separators, dot segments,
+	// percent signs, empty fragments): any string is a legal source in a document.
+	oddSources bool
 }
+
+var oddPluginSources = []string{"myorg//thing#v1", "myorg/thing/#v1", "myorg/plugins/../thing#v1", "docker%2525#v1", "docker%25#v1", "x/y/z/", "#frag", "name#", "a b/c d#e f",
+	"./rel/../path", "docker#", "/abs//path", "github.com//org/repo", "org/name#ref#again", "org/name?query=1#v1", "ORG/Name#V1", "org/name-buildkite-plugin#v1", "name-buildkite-plugin"}
 
 func (w *signWorld) str(pos string) string {
 	t := w.c.Plan
 	switch pos {
 	case "plugin.source":
+		if w.oddSources && t.Draw(4, "str:oddsource?") == 3 {
+			return oddPluginSources[t.Draw(len(oddPluginSources), "str:oddsource")]
+		}
 		s := pluginSources[t.Draw(len(pluginSources), "str:source")]
 		if !strings.Contains(s, "github.com/") && !strings.HasPrefix(s, ".") && !strings.HasPrefix(s, "/") && !strings.Contains(s, "://") && !strings.Contains(s, "@") {
 			w.features["short_source"] = true
